@@ -4,6 +4,7 @@ import AlgoVerif.Model.Catchup
 Line protocol of property C30 — the acceptor `Model.Catchup.step` behind one event per line:
 
   reset mode=<CatchupBlockValidateMode> lb=<seedLookback> par=<CatchupParallelBlocks> base=<ledger round>
+  certreset r=<round> cert=<id of the certificate agreement verified>     (syncCert / fetchRound case, Model.Catchup.cstep)
   fetch r | retry r | fetched r b c br cr cm au | fetcherr r [kind] | contents r b ok|bad | auth r b c ok|bad
   wrote r b c [cm au] | dup r b c [cm au] | done r | ext r
 
@@ -38,7 +39,27 @@ def parseEvent : List String → Option Event
   | ["ext", r] => r.toNat?.map Event.ext
   | _ => none
 
-abbrev DState := Option (Cfg × St)
+def kvs (toks : List String) (k : String) : Option String :=
+  toks.findSome? fun t => match t.splitOn "=" with
+    | [k', v] => if k' = k then some v else none
+    | _ => none
+
+/-- events of a `certreset` case (syncCert / fetchRound): same lines, `fetched` carries a 9th field hm -/
+def parseCEvent (r : Nat) : List String → Option CEvent
+  | ["fetch", r'] => if r'.toNat? = some r then some .request else none
+  | ["retry", r'] => if r'.toNat? = some r then some .request else none
+  | ["fetched", r', b, c, br, cr, cm, _au, hm] => do
+      let r' ← r'.toNat?; let br ← br.toNat?; let cr ← cr.toNat?; let cm ← flag cm; let hm ← flag hm
+      if r' = r then pure (CEvent.answer ⟨idOf b, idOf c, br, cr, hm, cm⟩) else none
+  | "fetcherr" :: r' :: _ => if r'.toNat? = some r then some .err else none
+  | "wrote" :: r' :: b :: c :: _ => if r'.toNat? = some r then some (.ensure (idOf b) (idOf c)) else none
+  | "dup" :: r' :: b :: c :: _ => if r'.toNat? = some r then some (.ensure (idOf b) (idOf c)) else none
+  | _ => none
+
+inductive DState where
+  | none
+  | pipe (cfg : Cfg) (s : St)
+  | cert (r : Nat) (trusted : Id) (t : CTask)
 
 def handle (st : DState) (line : String) : DState × String :=
   match fields line with
@@ -46,18 +67,32 @@ def handle (st : DState) (line : String) : DState × String :=
     match kv rest "mode", kv rest "lb", kv rest "par", kv rest "base" with
     | some m, some lb, some par, some base =>
       match cfgOfMode m lb par with
-      | some cfg => (some (cfg, init base), "ok")
-      | none => (none, "reject bad-mode")
-    | _, _, _, _ => (none, "reject bad-reset")
+      | some cfg => (.pipe cfg (init base), "ok")
+      | none => (.none, "reject bad-mode")
+    | _, _, _, _ => (.none, "reject bad-reset")
+  | "certreset" :: rest =>
+    match kv rest "r", kvs rest "cert" with
+    | some r, some c => (.cert r (idOf c) .ready, "ok")
+    | _, _ => (.none, "reject bad-reset")
   | toks =>
     match st with
-    | none => (none, "reject no-case")
-    | some (cfg, s) =>
+    | .none => (.none, "reject no-case")
+    | .pipe cfg s =>
       match parseEvent toks with
       | none => (st, "reject unknown-event")
       | some e =>
         match step cfg s e with
-        | .ok s' => (some (cfg, s'), "ok")
+        | .ok s' => (.pipe cfg s', "ok")
         | .error rule => (st, "reject " ++ rule)
+    | .cert r tr t =>
+      match toks with
+      | ["done", _] => (st, "ok")      -- the ledger's notification is not an event of this path
+      | _ =>
+        match parseCEvent r toks with
+        | none => (st, "reject unknown-event")
+        | some e =>
+          match cstep r tr t e with
+          | .ok t' => (.cert r tr t', "ok")
+          | .error rule => (st, "reject " ++ rule)
 
 end AlgoVerif.Driver.C30
